@@ -95,7 +95,10 @@ func returnClosure(fn *ssa.Function, idx int) map[ssa.Value]bool {
 	out := map[ssa.Value]bool{}
 	for _, b := range fn.Blocks {
 		if rt, ok := b.Instrs[len(b.Instrs)-1].(*ssa.Return); ok && idx < len(rt.Results) {
-			for v := range backClosure(rt.Results[idx], nil) {
+			if b == fn.Recover {
+				continue
+			}
+			for v := range backClosure(unspill(rt, idx), nil) {
 				out[v] = true
 			}
 		}
@@ -439,4 +442,47 @@ func sameVal(a, b ssa.Value) bool {
 		return true
 	}
 	return Expr(a) == Expr(b) && !strings.Contains(Expr(a), "(") // pure field/param paths only
+}
+
+// unspill undoes go/ssa's "defer-spilled returns": in a function with a
+// defer, results are stored into locals, the deferred calls run, and the
+// locals are loaded back for the Return. When the returned operand is such a
+// load and the store that feeds it is unambiguous (the last store to that
+// local in the same block, or the only store in the function), the stored
+// value is returned; otherwise the operand itself.
+func unspill(rt *ssa.Return, idx int) ssa.Value {
+	v := rt.Results[idx]
+	ld, ok := v.(*ssa.UnOp)
+	if !ok || ld.Op != token.MUL {
+		return v
+	}
+	al, ok := ld.X.(*ssa.Alloc)
+	if !ok || al.Heap {
+		return v
+	}
+	// last store in the same block before the load
+	var last ssa.Value
+	for _, in := range rt.Block().Instrs {
+		if in == ld {
+			break
+		}
+		if st, ok := in.(*ssa.Store); ok && st.Addr == al {
+			last = st.Val
+		}
+	}
+	if last != nil {
+		return last
+	}
+	var only ssa.Value
+	n := 0
+	for _, ref := range *al.Referrers() {
+		if st, ok := ref.(*ssa.Store); ok && st.Addr == al {
+			n++
+			only = st.Val
+		}
+	}
+	if n == 1 {
+		return only
+	}
+	return v
 }
